@@ -8,13 +8,13 @@ package sasl
   (props C13 C05)
   (use be16)
   (ensures token (=> (sl_tok (content data))
-      (and (= advance (sl_adv (content data))) (= (content token) (str.substr (content data) 0 advance))
-           (= (len token) advance) (= err nil) (not (isnil token)) (= (ref token) (ref data)))))
-  (ensures too-long (=> (sl_bad (content data)) (and (not (= err nil)) (isnil token) (= advance 0))))
-  (ensures need-more (=> (and (sl_need (content data)) (not atEOF)) (and (= advance 0) (isnil token) (= err nil))))
-  (ensures eof-empty (=> (and atEOF (= (len data) 0)) (and (= advance 0) (isnil token) (= err nil))))
-  (ensures eof-partial (=> (and (sl_need (content data)) atEOF (> (len data) 0)) (and (not (= err nil)) (isnil token) (= advance 0))))
-  (ensures advance-bounds (and (<= 0 advance) (<= advance (len data)))))
+      (and (= $r0 (sl_adv (content data))) (= (content $r1) (str.substr (content data) 0 $r0))
+           (= (len $r1) $r0) (= $r2 nil) (not (isnil $r1)) (= (ref $r1) (ref data)))))
+  (ensures too-long (=> (sl_bad (content data)) (and (not (= $r2 nil)) (isnil $r1) (= $r0 0))))
+  (ensures need-more (=> (and (sl_need (content data)) (not atEOF)) (and (= $r0 0) (isnil $r1) (= $r2 nil))))
+  (ensures eof-empty (=> (and atEOF (= (len data) 0)) (and (= $r0 0) (isnil $r1) (= $r2 nil))))
+  (ensures eof-partial (=> (and (sl_need (content data)) atEOF (> (len data) 0)) (and (not (= $r2 nil)) (isnil $r1) (= $r0 0))))
+  (ensures advance-bounds (and (<= 0 $r0) (<= $r0 (len data)))))
 */
 
 /*@
@@ -79,14 +79,14 @@ package sasl
   (props C13 C05)
   (use be16 fields frest-unfold)
   (modifies rin sc_rest sc_tok sc_err sc_split (. r Login) (. r Password) (. r Service) (. r Realm))
-  (ensures ok (=> (= err nil)
+  (ensures ok (=> (= $r0 nil)
       (and (fok (old (select rin reader)) 4)
            (= (. r Login) (ffield (old (select rin reader)) 0))
            (= (. r Password) (ffield (old (select rin reader)) 1))
            (= (. r Service) (ffield (old (select rin reader)) 2))
            (= (. r Realm) (ffield (old (select rin reader)) 3))
            (> (str.len (. r Login)) 0) (> (str.len (. r Password)) 0))))
-  (ensures ok-explicit (=> (= err nil)
+  (ensures ok-explicit (=> (= $r0 nil)
       (and (xok4 (old (select rin reader)))
            (= (. r Login) (xpay (old (select rin reader))))
            (= (. r Password) (xpay (xr1 (old (select rin reader)))))
@@ -95,11 +95,11 @@ package sasl
   (ensures complete (=> (and (xok4 (old (select rin reader))) (= (rterm reader) 0)
                              (not (= (xpay (old (select rin reader))) ""))
                              (not (= (xpay (xr1 (old (select rin reader)))) "")))
-                        (= err nil)))
-  (ensures fail-unchanged (=> (not (= err nil))
+                        (= $r0 nil)))
+  (ensures fail-unchanged (=> (not (= $r0 nil))
       (and (= (. r Login) (old (. r Login))) (= (. r Password) (old (. r Password)))
            (= (. r Service) (old (. r Service))) (= (. r Realm) (old (. r Realm))))))
-  (ensures error-witness (=> (not (= err nil))
+  (ensures error-witness (=> (not (= $r0 nil))
       (or (not (= (rterm reader) 0))
           (exists ((j Int)) (and (<= 0 j) (< j 4) (fok (old (select rin reader)) j)
                                  (not (sl_tok (frest (old (select rin reader)) j)))))
@@ -139,7 +139,7 @@ package sasl
   (props C13 C05)
   (use be16 fields frest-unfold)
   (modifies rin sc_rest sc_tok sc_err sc_split (. r Result) (. r Message))
-  (ensures ok (=> (= err nil)
+  (ensures ok (=> (= $r0 nil)
       (and (fok (old (select rin reader)) 1)
            (>= (str.len (ffield (old (select rin reader)) 0)) 2)
            (or (and (= (str.substr (ffield (old (select rin reader)) 0) 0 2) "OK") (. r Result))
@@ -147,7 +147,7 @@ package sasl
            (=> (> (str.len (ffield (old (select rin reader)) 0)) 3)
                (= (. r Message) (str.substr (ffield (old (select rin reader)) 0) 3 (- (str.len (ffield (old (select rin reader)) 0)) 3))))
            (=> (<= (str.len (ffield (old (select rin reader)) 0)) 3) (= (. r Message) (old (. r Message)))))))
-  (ensures ok-explicit (=> (= err nil)
+  (ensures ok-explicit (=> (= $r0 nil)
       (and (sl_tok (old (select rin reader)))
            (>= (str.len (xpay (old (select rin reader)))) 2)
            (or (and (= (str.substr (xpay (old (select rin reader))) 0 2) "OK") (. r Result))
@@ -159,9 +159,9 @@ package sasl
                              (>= (str.len (xpay (old (select rin reader)))) 2)
                              (or (= (str.substr (xpay (old (select rin reader))) 0 2) "OK")
                                  (= (str.substr (xpay (old (select rin reader))) 0 2) "NO")))
-                        (= err nil)))
-  (ensures fail-negative (=> (not (= err nil)) (not (. r Result))))
-  (ensures error-witness (=> (not (= err nil))
+                        (= $r0 nil)))
+  (ensures fail-negative (=> (not (= $r0 nil)) (not (. r Result))))
+  (ensures error-witness (=> (not (= $r0 nil))
       (or (not (= (rterm reader) 0))
           (not (sl_tok (old (select rin reader))))
           (< (str.len (ffield (old (select rin reader)) 0)) 2)
@@ -177,12 +177,12 @@ package sasl
   (callsite "bytes.NewBuffer" 0
     (requires empty-window-over-the-result (and (= (ref $0) (ref (local data))) (= (off $0) (off (local data))) (= (len $0) 0) (= (cap $0) (len (local data))))))
   (callsite "(*sasl.Request).Encode" 0 (requires this-request-into-that-buffer (and (= $0 r) (= $1 (callresult "bytes.NewBuffer" 0 0)))))
-  (ensures sized-exactly (=> (= err nil)
-      (= (len data) (str.len (str.++ (enc (. r Login)) (enc (. r Password)) (enc (. r Service)) (enc (. r Realm)))))))
-  (ensures encoded (=> (= err nil)
+  (ensures sized-exactly (=> (= $r1 nil)
+      (= (len $r0) (str.len (str.++ (enc (. r Login)) (enc (. r Password)) (enc (. r Service)) (enc (. r Realm)))))))
+  (ensures encoded (=> (= $r1 nil)
       (= (select wout (callresult "bytes.NewBuffer" 0 0))
          (str.++ (enc (. r Login)) (enc (. r Password)) (enc (. r Service)) (enc (. r Realm))))))
-  (ensures error-is-encodes (= err (callresult "(*sasl.Request).Encode" 0 0))))
+  (ensures error-is-encodes (= $r1 (callresult "(*sasl.Request).Encode" 0 0))))
 
 (func "(*sasl.Response).Marshal"
   (props C13)
@@ -190,24 +190,24 @@ package sasl
   (callsite "bytes.NewBuffer" 0
     (requires empty-window-over-the-result (and (= (ref $0) (ref (local data))) (= (off $0) (off (local data))) (= (len $0) 0) (= (cap $0) (len (local data))))))
   (callsite "(*sasl.Response).Encode" 0 (requires this-response-into-that-buffer (and (= $0 r) (= $1 (callresult "bytes.NewBuffer" 0 0)))))
-  (ensures sized-exactly (=> (= err nil) (= (len data) (str.len (enc (resptext (. r Result) (. r Message)))))))
-  (ensures encoded (=> (= err nil)
+  (ensures sized-exactly (=> (= $r1 nil) (= (len $r0) (str.len (enc (resptext (. r Result) (. r Message)))))))
+  (ensures encoded (=> (= $r1 nil)
       (= (select wout (callresult "bytes.NewBuffer" 0 0)) (enc (resptext (. r Result) (. r Message))))))
-  (ensures error-is-encodes (= err (callresult "(*sasl.Response).Encode" 0 0))))
+  (ensures error-is-encodes (= $r1 (callresult "(*sasl.Response).Encode" 0 0))))
 
 (func "(*sasl.Request).Unmarshal"
   (props C13)
   (noframe)
   (callsite "bytes.NewBuffer" 0 (requires over-exactly-the-input (and (= (content $0) (content data)) (= (len $0) (len data)))))
   (callsite "(*sasl.Request).Decode" 0 (requires into-this-request-from-that-buffer (and (= $0 r) (= $1 (callresult "bytes.NewBuffer" 0 0)))))
-  (ensures error-is-decodes (= err (callresult "(*sasl.Request).Decode" 0 0))))
+  (ensures error-is-decodes (= $r0 (callresult "(*sasl.Request).Decode" 0 0))))
 
 (func "(*sasl.Response).Unmarshal"
   (props C13)
   (noframe)
   (callsite "bytes.NewBuffer" 0 (requires over-exactly-the-input (and (= (content $0) (content data)) (= (len $0) (len data)))))
   (callsite "(*sasl.Response).Decode" 0 (requires into-this-response-from-that-buffer (and (= $0 r) (= $1 (callresult "bytes.NewBuffer" 0 0)))))
-  (ensures error-is-decodes (= err (callresult "(*sasl.Response).Decode" 0 0))))
+  (ensures error-is-decodes (= $r0 (callresult "(*sasl.Response).Decode" 0 0))))
 
 (func "(*sasl.Server).handleConnection"
   (props C05)
